@@ -305,18 +305,41 @@ def strip_coq_comments(src):
     return "".join(out)
 
 
-def scan_forbidden():
-    bad = []
-    for root, _, files in os.walk(COQ):
-        if os.path.basename(root) == "Cases":
+
+
+
+def coq_cone(props_file):
+    """The .v files (relative to coq/) that props_file transitively imports from PV."""
+    seen = []
+    todo = [props_file]
+    while todo:
+        f = todo.pop()
+        if f in seen or not os.path.exists(os.path.join(COQ, f)):
             continue
-        for fn in files:
-            if fn.endswith(".v"):
-                p = os.path.join(root, fn)
-                src = strip_coq_comments(open(p).read())
-                for m in FORBIDDEN_RE.finditer(src):
-                    # Variable/Hypothesis inside sections are fine; this regex only matches declarations of axioms
-                    bad.append("%s: %s" % (os.path.relpath(p, COQ), m.group(0)))
+        seen.append(f)
+        src = strip_coq_comments(open(os.path.join(COQ, f)).read())
+        for m in re.finditer(r"(From\s+PV\s+)?Require\s+(?:Import\s+|Export\s+)?((?:[A-Za-z_]\w*(?:\.[A-Za-z_]\w*)*\s*)+)\.(?=\s)", src):
+            for name in m.group(2).split():
+                if name.startswith("PV."):
+                    name = name[3:]
+                elif not m.group(1):
+                    continue
+                todo.append(name.replace(".", "/") + ".v")
+    return seen
+
+
+def scan_forbidden(files=None):
+    bad = []
+    if files is None:
+        files = []
+        for root, _, fns in os.walk(COQ):
+            if os.path.basename(root) == "Cases":
+                continue
+            files += [os.path.relpath(os.path.join(root, fn), COQ) for fn in fns if fn.endswith(".v")]
+    for rel in files:
+        src = strip_coq_comments(open(os.path.join(COQ, rel)).read())
+        for m in FORBIDDEN_RE.finditer(src):
+            bad.append("%s: %s" % (rel, m.group(0)))
     return bad
 
 
@@ -336,8 +359,12 @@ def coq_obligations(ctx, props_file, extra_targets=(), allowed_axioms=()):
             ctx.obligation("theorem:" + th, "theorem", False, "cone did not build (%s)" % (m[-1] if m else "?",))
         return False
     ctx.obligation("coq-build:" + props_file, "build", True, "%.1fs" % (time.time() - t))
-    bad = scan_forbidden()
-    ctx.obligation("no-admitted-no-axiom-declarations", "audit", not bad, "; ".join(bad))
+    cone = coq_cone(props_file)
+    for t in extra_targets:
+        cone += [f for f in coq_cone(t.replace(".vo", ".v")) if f not in cone]
+    bad = scan_forbidden(cone)
+    ctx.coverage["coq_files_in_cone"] = sorted(cone)
+    ctx.obligation("no-admitted-no-axiom-declarations(%d files)" % len(cone), "audit", not bad, "; ".join(bad))
     src = strip_coq_comments(open(os.path.join(COQ, props_file)).read())
     thms = THM_RE.findall(src)
     mod = "PV." + props_file[:-2].replace("/", ".")
